@@ -19,6 +19,7 @@ package queue
 
 import (
 	"fmt"
+	"os"
 	"path/filepath"
 	"sync"
 
@@ -98,6 +99,11 @@ func NewConsumerGroup(parent, fanOutPath string, q FanOutQueue) (ConsumerGroup, 
 
 	metaPage, err := metaPageFct.AcquirePage(metaPageIndex)
 	if err != nil {
+		if !hasMeta {
+			// a failed creation can leave an empty/zero meta file behind, the next attempt
+			// must not take it for the persisted positions(0/0) of an existing group.
+			_ = os.Remove(filepath.Join(name, fmt.Sprintf("%d.bat", metaPageIndex)))
+		}
 		return nil, err
 	}
 
